@@ -1380,9 +1380,21 @@ def rule_u17(F):
     return r
 
 
+def rule_u18(F):
+    """More variants than the one-byte tag distinguishes abort the compiler (Cranelift's switch builder panics on an entry that does
+    not fit the index type): the bound on the number of variants of a declared enum, shared with C02.L11."""
+    from . import c02
+    r = c02.rule_l11(F)
+    r.rule = "C06.U18"
+    r.desc = "a declared enum with more variants than its one-byte tag distinguishes is refused with a report (not carried into a switch that aborts the compiler)"
+    for v in r.violations:
+        v.rule = "C06.U18"
+    return r
+
+
 def rules(ctx):
     F = ctx["F"]
-    return [rule_u1(F), rule_u2(F), rule_u3(F), rule_u3b(F), rule_u4(F), rule_u5(F), rule_u6(F), rule_u7(F), rule_u8(F), rule_u9(F), rule_u10(F), rule_u11(F), rule_u12(F), rule_u13(F), rule_u14(F), rule_u15(F), rule_u16(F), rule_u17(F)]
+    return [rule_u1(F), rule_u2(F), rule_u3(F), rule_u3b(F), rule_u4(F), rule_u5(F), rule_u6(F), rule_u7(F), rule_u8(F), rule_u9(F), rule_u10(F), rule_u11(F), rule_u12(F), rule_u13(F), rule_u14(F), rule_u15(F), rule_u16(F), rule_u17(F), rule_u18(F)]
 
 
 def canary(C):
